@@ -147,7 +147,7 @@ LowS(s) == s <= Half
 \* production-curve lines of SigVerifyTrace, where only off is logged)
 LowAt(off) == off <= 0
 NegAt(off, low) == IF low THEN off ELSE 1 - off
-ASSUME BoundaryWindow == \A off \in (1 - Half)..(Half + 1) :
+ASSUME BoundaryWindow == \A off \in (1 - Half)..Half :
                             LET s == Half + off IN
                               /\ s \in FS
                               /\ LowS(s) <=> LowAt(off)
